@@ -2542,4 +2542,129 @@ theorem crash_in_write (w : Writer) (fs : FS) (al : List AFile) (B N ts : Nat) (
       (fun _ gi gl hg => h.lastSec init last rfl gi gl hg) hgood hB hN hL.2 k j
     simpa [FS.applyAll] using this
 
+
+/-! ### the cached position of a long-lived searcher -/
+
+/-- what a cached position promises: the cached file is in the directory or older than everything in it; if it is in the
+directory, the cached second is one of its index entries, and if it is its first entry, everything in the files before it is
+earlier than that second -/
+def CacheInv (al : List AFile) (c : Cache) : Prop :=
+  ∀ fid, c.file = some fid →
+    (fid ∈ al.map (·.id) ∨ ∀ f ∈ al, fid.lt f.id = true) ∧
+    ∀ A x B, al = A ++ x :: B → x.id = fid →
+      (∃ g ∈ x.groups, g.1 = c.curSec) ∧
+      ∀ g gs, x.groups = g :: gs → g.1 = c.curSec → ∀ y ∈ A, ∀ g' ∈ y.groups, g'.1 < c.curSec
+
+theorem cacheInv_empty (al : List AFile) : CacheInv al {} := by
+  intro fid hf; simp at hf
+
+theorem firstOffset_none_of_lt (gs : List Group) (bs : Nat) (h : ∀ g ∈ gs, g.1 < bs) : firstOffset gs bs = none := by
+  unfold firstOffset
+  have : gs.dropWhile (fun g => decide (g.1 < bs)) = [] := by
+    induction gs with
+    | nil => rfl
+    | cons g r ih =>
+      have hg : g.1 < bs := h g (by simp)
+      simp only [List.dropWhile_cons, hg, decide_true, if_true]
+      exact ih (fun x hx => h x (by simp [hx]))
+  rw [this]
+
+theorem findStart_skip (fs : FS) (bs : Nat) (A R : List AFile)
+    (h : ∀ y ∈ A, (fs.idxs.get? y.id).bind (findEntry · bs) = none) :
+    findStart fs bs ((A ++ R).map (·.id)) = findStart fs bs (R.map (·.id)) := by
+  induction A with
+  | nil => rfl
+  | cons y r ih =>
+    simp only [List.cons_append, List.map_cons, findStart, h y (by simp)]
+    exact ih (fun z hz => h z (by simp [hz]))
+
+theorem mem_ids_split (al : List AFile) (fid : FileId) (h : fid ∈ al.map (·.id)) :
+    ∃ A x B, al = A ++ x :: B ∧ x.id = fid ∧ ∀ y ∈ A, y.id ≠ fid := by
+  induction al with
+  | nil => simp at h
+  | cons a r ih =>
+    by_cases ha : a.id = fid
+    · exact ⟨[], a, r, rfl, ha, by simp⟩
+    · have : fid ∈ r.map (·.id) := by
+        simp only [List.map_cons, List.mem_cons] at h
+        rcases h with h | h
+        · exact absurd h.symm ha
+        · exact h
+      obtain ⟨A, x, B, e, hx, hA⟩ := ih this
+      refine ⟨a :: A, x, B, by rw [e]; rfl, hx, ?_⟩
+      intro y hy
+      rcases List.mem_cons.mp hy with h1 | h1
+      · rw [h1]; exact ha
+      · exact hA y h1
+
+theorem dropWhile_ne_split (A : List AFile) (x : AFile) (B : List AFile) (fid : FileId) (hx : x.id = fid) (hA : ∀ y ∈ A, y.id ≠ fid) :
+    ((A ++ x :: B).map (·.id)).dropWhile (· ≠ fid) = (x :: B).map (·.id) := by
+  induction A with
+  | nil => simp [hx]
+  | cons a r ih =>
+    have := hA a (by simp)
+    simp only [List.cons_append, List.map_cons, List.dropWhile_cons, ne_eq, this, not_false_eq_true, decide_true, if_true]
+    exact ih (fun y hy => hA y (by simp [hy]))
+
+/-- the first 8 bytes of a live file's index are its first group's second -/
+theorem unbe64_idxOf (gs : List Group) (s : Nat) (hs : ∀ g ∈ gs, g.1 < 18446744073709551616) (h : unbe64 (idxOf 0 gs) = some s) :
+    ∃ g rest, gs = g :: rest ∧ g.1 = s := by
+  cases gs with
+  | nil => simp [idxOf, unbe64] at h
+  | cons g rest =>
+    refine ⟨g, rest, rfl, ?_⟩
+    simp only [idxOf, encEntry, List.append_assoc] at h
+    rw [unbe64_be64 _ _ (hs g (by simp))] at h
+    simpa using h
+
+/-- **a search through a cached position starts where a fresh search would** -/
+theorem cache_findStart (fs : FS) (al : List AFile) (hrep : Rep fs al) (hwf : WF al) (hlive : ∀ f ∈ al, f.tail = [] ∧ f.idxTail = [])
+    (c : Cache) (hinv : CacheInv al c) (b : Nat) :
+    findStart fs (b / 1000) (startFiles fs c b) = findStart fs (b / 1000) (al.map (·.id)) := by
+  unfold startFiles
+  rw [hrep.listing]
+  by_cases hok : cacheOk fs c b = true
+  · rw [if_pos hok]
+    cases hfile : c.file with
+    | none => rfl
+    | some fid =>
+      simp only []
+      by_cases hmem : (al.map (·.id)).contains fid = true
+      · rw [if_pos hmem]
+        obtain ⟨A, x, B, hal, hx, hA⟩ := mem_ids_split al fid (by simpa using hmem)
+        rw [hal, dropWhile_ne_split A x B fid hx hA]
+        have hxm : x ∈ al := by rw [hal]; simp
+        -- what the accepted cache says about `x`
+        unfold cacheOk at hok
+        simp only [hfile] at hok
+        by_cases hb : b / 1000 < c.curSec
+        · simp [hb] at hok
+        · simp only [hb, if_false] at hok
+          have hidx : fs.idxs.get? fid = some x.idx := by
+            rcases hrep.idxs x hxm with h | ⟨h, hg⟩
+            · rw [← hx]; exact h
+            · rw [← hx, h] at hok; simp at hok
+          rw [hidx] at hok
+          simp only [] at hok
+          cases hu : unbe64 x.idx with
+          | none => rw [hu] at hok; simp at hok
+          | some s =>
+            rw [hu] at hok
+            have hs : s = c.curSec := by simpa using hok
+            have hxidx : x.idx = idxOf 0 x.groups := by simp [AFile.idx, (hlive x hxm).2]
+            rw [hxidx] at hu
+            obtain ⟨g, rest, hg, hgs⟩ := unbe64_idxOf x.groups s (hwf.small x hxm).1 hu
+            have hearly := ((hinv fid hfile).2 A x B hal hx).2 g rest hg (hgs.trans hs)
+            symm
+            apply findStart_skip
+            intro y hy
+            have hym : y ∈ al := by rw [hal]; simp [hy]
+            rw [idx_lookup fs y _ (hrep.idxs y hym) (hwf.small y hym) (hwf.tails y hym).2]
+            apply firstOffset_none_of_lt
+            intro g' hg'
+            have := hearly y hy g' hg'
+            omega
+      · rw [if_neg hmem]
+  · rw [if_neg hok]
+
 end Sentinel.MLog
